@@ -35,9 +35,18 @@ def cases(run: Run):
         vel = list(sp * d / np.linalg.norm(d) + 0.3 * sp * rng.uniform(-1, 1) * np.array(pos) / r)
         start = datetime(rng.randint(2015, 2021), rng.randint(1, 12), rng.randint(1, 28), rng.randint(0, 23), rng.randint(0, 59), rng.randint(0, 59))
         bodies = rng.choice([[], ["sun"], ["moon"], ["sun", "moon"], ["moon", "sun"], ["sun", "moon", "jupiter"], ["venus", "saturn"]])
+        t_off = rng.choice([0.0, 60.0, 3600.0, 600.5, 3599.75, 86400.25, 5 * 86400.0, 20 * 86400.0 + 0.4, rng.uniform(0, 30 * 86400), rng.uniform(0, 7200)])
+        degree = rng.choice([0, 2, 2, 4, 8, 12, 20])
+        order_le = rng.random() < 0.3
+        if rng.random() < 0.2:
+            # a dynamics object created in one calendar year and asked for the force in the next (a run across New Year), with tesseral terms on:
+            # the acceleration is a function of the state and the epoch, not of when the object was made
+            start = datetime(rng.randint(2015, 2021), 12, rng.choice([30, 31, 31]), rng.randint(0, 23), rng.randint(0, 59), rng.randint(0, 59))
+            t_off = rng.choice([2 * 86400.0, 86400.0 * 2 + 0.25, 5 * 86400.0, rng.uniform(2 * 86400, 20 * 86400)])
+            degree, order_le = rng.choice([4, 8, 12, 20]), False
         out.append({
-            "pos": pos, "vel": [float(v) for v in vel], "start": start.isoformat(), "t": rng.choice([0.0, 60.0, 3600.0, 600.5, 3599.75, 86400.25, 5 * 86400.0, 20 * 86400.0 + 0.4, rng.uniform(0, 30 * 86400), rng.uniform(0, 7200)]),
-            "file": rng.choice(FILES), "degree": rng.choice([0, 2, 2, 4, 8, 12, 20]), "order_le": rng.random() < 0.3, "bodies": bodies,
+            "pos": pos, "vel": [float(v) for v in vel], "start": start.isoformat(), "t": t_off,
+            "file": rng.choice(FILES), "degree": degree, "order_le": order_le, "bodies": bodies,
             "srp": rng.random() < 0.6, "gr": rng.random() < 0.5, "K": rng.choice([1, 1, 2, 3]), "ratio": rng.choice([0.02, 0.005, 0.1]),
             "eph_jd": rng.uniform(2457024.0, 2459800.0), "eph_k": rng.randint(0, 600), "shadow_bias": rng.random() < 0.35,
         })
